@@ -231,8 +231,9 @@ def specs(tier: str) -> list[Spec]:
         Spec("cancel_fan", {"cause": "cancel"}, lambda: wf_fan(2, 2), scripts=cancel_script),
         Spec("cancel_twice", {"cause": "cancel"}, lambda: wf_chain(1), scripts=double_cancel_script),
         Spec("cancel_during_retry_delay", {"cause": "cancel"}, lambda: wf_raise(pol3()), scripts=cancel_script),
-        Spec("timeout_chain", {"cause": "timeout"}, lambda: wf_chain(2), wf_kw={"timeout": 10.0}),
-        Spec("timeout_fan", {"cause": "timeout"}, lambda: wf_fan(2, 2), wf_kw={"timeout": 10.0}),
+        Spec("timeout_chain", {"cause": "timeout"}, lambda: wf_chain(2), wf_kw={"timeout": 10.0}, pair_time=True),
+        Spec("timeout_fan", {"cause": "timeout"}, lambda: wf_fan(2, 2), wf_kw={"timeout": 10.0}, pair_time=True,
+             max_dev=(4 if tier == "quick" else None)),
         Spec("timeout_vs_cancel", {"cause": "timeout_vs_cancel"}, lambda: wf_chain(1), scripts=cancel_script,
              wf_kw={"timeout": 10.0}),
         Spec("timeout_during_retry_delay", {"cause": "timeout"}, lambda: wf_raise(pol3()), wf_kw={"timeout": 10.0}),
